@@ -94,6 +94,27 @@ def gen_texts(rng, n):
     return out
 
 
+def gen_to_num_texts(rng, n):
+    """Texts for String.to_num: signs, zeros of both signs, exponent forms, the special names, malformed texts."""
+    out = ["-0", "-000", "-0.0", "+0", "0", "-0e5", "-0.000e-3", "+5", "-5", "1e5", "1E5", "1e+5", "1e-5", "-1.5e300", "1e400", "-1e400", "1e-400", "-1e-400",
+           "inf", "-inf", "+inf", "infinity", "-infinity", "Infinity", "INF", "nan", "NaN", "-nan", "+nan", ".5", "-.5", "5.", "-5.", ".", "-", "+", "", "e5", "1e", "1e+",
+           " 1", "1 ", "1_0", "0x10", "1.2.3", "--1", "+-1", "1e5.5", "12a", "4.9e-324", "2.4e-324", "2.5e-324", "1.7976931348623157e308", "1.7976931348623159e308",
+           "9007199254740993", "-9007199254740993", "0.1e1", "00012", "-00012.5000"]
+    while len(out) < n:
+        k = rng.below(6)
+        sign = rng.choice(["", "-", "+", ""])
+        ip = "".join(str(rng.below(10)) for _ in range(rng.below(8 if k else 22)))
+        fp = "".join(str(rng.below(10)) for _ in range(rng.below(8 if k != 1 else 25)))
+        t = sign + ip + ("." + fp if fp or rng.chance(1, 8) else "")
+        if k >= 3:
+            t += rng.choice(["e", "E"]) + rng.choice(["", "-", "+"]) + str(rng.below(330 if k == 5 else 30))
+        if k == 4 and rng.chance(1, 3):
+            i = rng.below(len(t) + 1)
+            t = t[:i] + rng.choice(["x", " ", "e", ".", "-", "_", "f", "n"]) + t[i:]
+        out.append(t)
+    return out
+
+
 def correspondence(ctx, model_ok=True):
     rng = ctx.rng.fork("c19")
     failures = []
@@ -110,7 +131,7 @@ def correspondence(ctx, model_ok=True):
             x = bits_to_float(b)
             lit = exact_decimal(x)
             lit = ("-" + lit) if (b >> 63) else lit
-            L.append("{ var x = %s; print(x); print(String.from(x).to_num() == x); print(\"${x}\" == String.from(x)); }" % lit)
+            L.append("{ var x = %s; print(x); print(String.from(x).to_num() == x); print(\"${x}\" == String.from(x)); print(String.from(x).to_num()); }" % lit)
         prog_list.append(("bits%d" % i, "\n".join(L) + "\n", {}))
         meta.append(("bits", chunk))
     for i in range(0, len(texts), batch):
@@ -121,6 +142,12 @@ def correspondence(ctx, model_ok=True):
             L.append("print(\"%s\".to_num());" % t)
         prog_list.append(("text%d" % i, "\n".join(L) + "\n", {}))
         meta.append(("text", chunk))
+    tn = gen_to_num_texts(rng.fork("tonum"), 6000 if ctx.thorough else 800)
+    for i in range(0, len(tn), batch):
+        chunk = tn[i:i + batch]
+        prog_list.append(("tonum%d" % i, "\n".join("try { print(\"%s\".to_num()); } catch e { print(\"err \" + String.from(type(e) == ValueError)); }" % t for t in chunk) + "\n", {}))
+        meta.append(("tonum", chunk))
+    tonum_req, tonum_real = [], []
     res, _ = progs.run_programs(ctx.runner, prog_list, {"gc": "default"}, steps_budget=50000000, tag="n")
     model_print_req, model_print_real = [], []
     model_parse_req, model_parse_real = [], []
@@ -134,7 +161,7 @@ def correspondence(ctx, model_ok=True):
         if kind == "bits":
             for j, b in enumerate(chunk):
                 x = bits_to_float(b)
-                shown, rt, interp = printed[3 * j:3 * j + 3]
+                shown, rt, interp, again = printed[4 * j:4 * j + 4]
                 compared += 1
                 exp = ref.fmt_num(x)
                 bad = None
@@ -142,8 +169,8 @@ def correspondence(ctx, model_ok=True):
                     bad = "prints %r (%d significant digits), a shortest round-trip text has %d (%r)" % (shown, sigdigits(shown), sigdigits(exp), exp)
                 elif (x != x or abs(x) == math.inf) and shown != exp:
                     bad = "prints %r, expected %r" % (shown, exp)
-                elif rt != "true":
-                    bad = "printing and converting back does not give the same number (text %r)" % shown
+                elif rt != ("true" if x == x else "false") or again != shown:
+                    bad = "printing and converting back does not give the same number (text %r, converted back it prints %r)" % (shown, again)
                 elif interp != "true":
                     bad = "interpolation and String.from disagree"
                 elif x == math.trunc(x) and "." in shown:
@@ -157,6 +184,11 @@ def correspondence(ctx, model_ok=True):
                                      "signature": "number text: " + bad.split(",")[0].split("%")[0][:40], "failing_input": True})
                 model_print_req.append("print %016x" % b)
                 model_print_real.append(shown)
+        elif kind == "tonum":
+            for t, shown in zip(chunk, printed):
+                compared += 1
+                tonum_req.append(t)
+                tonum_real.append(shown)
         else:
             for j, t in enumerate(chunk):
                 lit, conv = printed[2 * j:2 * j + 2]
@@ -197,6 +229,20 @@ def correspondence(ctx, model_ok=True):
                 if vlib.unhx(a).decode("utf-8", "replace") != real:
                     failures.append({"what": "model display and implementation differ", "request": req, "model": vlib.unhx(a).decode("utf-8", "replace"), "real": real,
                                      "signature": "model-vs-real display", "failing_input": False})
+                    break
+            # to_num on signed / exponent / special / malformed texts: the model's parse, then the model's display of the result
+            pa = vlib.run_model("num", ["parse " + vlib.hx(t) for t in tonum_req])
+            good = [(t, a, real) for t, a, real in zip(tonum_req, pa, tonum_real) if a != "err"]
+            da = vlib.run_model("num", ["print " + ("7ff8000000000000" if a == "nan" else a) for _, a, _ in good]) if good else []
+            expected = {}
+            for (t, a, real), d in zip(good, da):
+                expected[t] = vlib.unhx(d).decode("utf-8", "replace")
+            for t, a, real in zip(tonum_req, pa, tonum_real):
+                model_checked += 1
+                exp = "err true" if a == "err" else expected[t]
+                if real != exp:
+                    failures.append({"what": "to_num(%r) prints %r; the model's parse (the nearest double, sign of zero kept; ValueError for malformed text) gives %r" % (t, real, exp),
+                                     "text": t, "program": "print(\"%s\".to_num());" % t, "signature": "to_num differs from the model's parse", "failing_input": True})
                     break
             ans = vlib.run_model("num", model_parse_req)
             for req, a, real in zip(model_parse_req, ans, model_parse_real):
